@@ -35,6 +35,7 @@ var kindName = []string{"add", "rt", "conc", "count", "values"}
 
 type program struct {
 	onePreempt bool // systematic exploration with one preemption even in the thorough tier
+	twoPreempt bool // small program: two preemptions even in the quick tier
 	n          uint32
 	phase      uint64 // start instant = base + phase
 	pre        int    // sequential pre-fill adds
@@ -262,6 +263,14 @@ func execute(c *hx.Case, p program, choose func(enabled []int, last int) int, ti
 			}
 		}
 	}
+	// (e) expired data stays invisible: every operation has returned; one whole interval later (and again one later) nothing
+	// recorded so far belongs to the window, whatever bucket a straggling recorder landed in
+	for k := 0; k < 2; k++ {
+		hx.C.AddMs(iv)
+		if got := arr.CountWithTime(hx.C.Ms(), base.MetricEventPass); got != 0 {
+			return fmt.Sprintf("(e) %d whole interval(s) after every operation returned a read reports %d: data of an expired bucket is visible: %s", k+1, got, dump()), overlapSeen
+		}
+	}
 	return "", overlapSeen
 }
 
@@ -328,6 +337,22 @@ func basePrograms() []program {
 			ps = append(ps, program{n: n, phase: 9, pre: 1, preGap: iv, tasks: tasks, onePreempt: true})
 		}
 	}
+	// one recorder that has chosen its bucket in the last millisecond before a boundary, one reader that rolls the bucket
+	// over after the tick: small enough for two preemptions in both tiers
+	for _, n := range []uint32{1, 2} {
+		for _, pre := range []int{0, 1} {
+			ps = append(ps, program{n: n, phase: 9, pre: pre, preGap: 0, tasks: [][]int{{kAdd}, {kCount}}, twoPreempt: true})
+		}
+	}
+	// an array still in its first lap (three buckets, created one bucket after an interval boundary, nothing pre-filled):
+	// slots in front of the creation slot have never been written; readers on both sides of a tick overlap
+	for _, tasks := range [][][]int{
+		{{kAdd, kCount}, {kCount}},
+		{{kAdd}, {kCount}, {kCount}},
+		{{kAdd, kCount}, {kCount}, {kAdd}},
+	} {
+		ps = append(ps, program{n: 3, phase: 0, pre: 0, preGap: bl, tasks: tasks})
+	}
 	return ps
 }
 
@@ -350,6 +375,9 @@ func TestSystematicSchedules(t *testing.T) {
 		mp := maxPre
 		if p.onePreempt { // the boundary-crossing programs are explored with one preemption in both tiers
 			mp = 1
+		}
+		if p.twoPreempt {
+			mp = 2
 		}
 		ex := &sched.Explorer{MaxPreempt: mp}
 		perProgram := 0
